@@ -65,34 +65,40 @@ structure CState where
   died : Bool := false          -- worker ended with a foreign exception (no end of stream declared)
   stop : Bool := false          -- worker ended with the library's Exception after the statistics update
 
-/-- one call of `compressedFile2UncompressedFile` plus the loop test; `none` = the thread loop ends -/
-def containerStep (Z : Zlib) (cap : Nat) (cs : CState) : Option CState :=
-  let cfg := stickyCfg cap
-  -- ObjectHeaderBase ohb; ohb.read(m_compressedFile)
-  let h := Gen.ObjectHeaderBase.readProg.exec cfg { cs.st with obj := Gen.ObjectHeaderBase.fresh, halt := .none }
+/-- a log container has been read completely (`r`): inflate or copy it and hand it to the in-memory stream -/
+def pushContainer (Z : Zlib) (cap : Nat) (cs : CState) (r : St) : CState :=
+  let lc := r.obj
+  let usize := cs.usize + 32 + lc.num 8
+  let method := lc.num 5
+  if method = 0 then
+    if lc.num 8 ≠ (lc.buf 10).length then { cs with st := r, usize := usize, stop := true }   -- "unexpected uncompressedSize"
+    else { st := r, conts := { size := lc.num 8, data := lc.buf 10 } :: cs.conts, usize := usize }
+  else if method = 2 then
+    if cap < lc.num 8 then { cs with st := r, usize := usize, stop := true }   -- resize throws std::bad_alloc
+    else match Z.inflate (lc.buf 10) (lc.num 8) with
+      | some d => { st := r, conts := { size := lc.num 8, data := d } :: cs.conts, usize := usize }
+      | none => { cs with st := r, usize := usize, stop := true }   -- zlib error / size mismatch -> Exception
+  else { cs with st := r, usize := usize, stop := true }            -- unknown compression method -> Exception
+
+/-- what follows `LogContainer::read` (`r`) -/
+def afterContainerRead (Z : Zlib) (cap : Nat) (cs : CState) (r : St) : Option CState :=
+  if r.halt = .badAlloc then some { cs with st := r, stop := true }      -- std::bad_alloc: worker ends, end of stream declared
+  else if r.halt ≠ .none then none
+  else if !r.good then none
+  else some (pushContainer Z cap cs r)
+
+/-- what follows the read of the base header `h` on the compressed file -/
+def afterContainerHeader (Z : Zlib) (cap : Nat) (cs : CState) (h : St) : Option CState :=
   if h.halt ≠ .none then none                                   -- Exception("End of File") -> loop ends
   else if !h.good then none                                     -- "Read beyond end of file"
-  else
-    let st1 := h.sback 16
-    if h.obj.num 4 ≠ 10 then none                               -- not a log container -> Exception
-    else
-      let r := Gen.LogContainer.readProg.exec cfg { st1 with obj := Gen.LogContainer.fresh, halt := .none }
-      if r.halt = .badAlloc then some { cs with st := r, stop := true }      -- std::bad_alloc: worker ends, end of stream declared
-      else if r.halt ≠ .none then none
-      else if !r.good then none
-      else
-        let lc := r.obj
-        let usize := cs.usize + 32 + lc.num 8
-        let method := lc.num 5
-        if method = 0 then
-          if lc.num 8 ≠ (lc.buf 10).length then some { cs with st := r, usize := usize, stop := true }   -- "unexpected uncompressedSize"
-          else some { st := r, conts := { size := lc.num 8, data := lc.buf 10 } :: cs.conts, usize := usize }
-        else if method = 2 then
-          if cap < lc.num 8 then some { cs with st := r, usize := usize, stop := true }   -- resize throws std::bad_alloc
-          else match Z.inflate (lc.buf 10) (lc.num 8) with
-            | some d => some { st := r, conts := { size := lc.num 8, data := d } :: cs.conts, usize := usize }
-            | none => some { cs with st := r, usize := usize, stop := true }   -- zlib error / size mismatch -> Exception
-        else some { cs with st := r, usize := usize, stop := true }            -- unknown compression method -> Exception
+  else if h.obj.num 4 ≠ 10 then none                            -- not a log container -> Exception
+  else afterContainerRead Z cap cs
+    (Gen.LogContainer.readProg.exec (stickyCfg cap) { h.sback 16 with obj := Gen.LogContainer.fresh, halt := .none })
+
+/-- one call of `compressedFile2UncompressedFile` plus the loop test; `none` = the thread loop ends -/
+def containerStep (Z : Zlib) (cap : Nat) (cs : CState) : Option CState :=
+  afterContainerHeader Z cap cs
+    (Gen.ObjectHeaderBase.readProg.exec (stickyCfg cap) { cs.st with obj := Gen.ObjectHeaderBase.fresh, halt := .none })
 
 def containerLoop (Z : Zlib) (cap : Nat) : Nat → CState → CState
   | 0, cs => cs
@@ -122,39 +128,38 @@ structure PState where
   count : Nat := 0                     -- currentObjectCount
   outcome : Option Outcome := none     -- set when the worker stops abnormally
 
-/-- one call of `uncompressedFile2ReadWriteQueue` plus the loop test; `none` = the thread loop ends normally -/
-def objectStep (cap : Nat) (ps : PState) : Option PState :=
-  let cfg := memCfg cap
-  let h := Gen.ObjectHeaderBase.readProg.exec cfg { ps.st with obj := Gen.ObjectHeaderBase.fresh, halt := .none }
+/-- the object read by the decoder of class `c` from the object's first byte on (`st1`), declared size `osz` -/
+def classStep (cap : Nat) (ps : PState) (st1 : St) (osz : Nat) (c : Codec) : Option PState :=
+  let r := c.readProg.exec (memCfg cap) { st1 with obj := c.fresh, halt := .none }
+  let csz := c.sizeExpr.eval c.fresh
+  if r.halt = .badAlloc then none                           -- std::bad_alloc: worker ends, end of stream declared
+  else if r.halt = .oob then some { ps with st := r, outcome := some .oob }
+  else if r.halt = .exc then none
+  else if !r.good then none                                 -- "Read beyond end of file": object dropped
+  else
+    -- if (tmp != 0) seekg(tmp)   with tmp = objectSize - calculateObjectSize() < 0; never back to the object's start
+    if csz > osz then
+      if r.pos + osz ≤ st1.pos + csz then none              -- "Object size smaller than object": Exception
+      else
+        some { st := { r with pos := min (r.pos + osz - csz) r.inp.length }, objs := (c.name, r.obj) :: ps.objs,
+               count := if r.obj.num 4 = 115 then ps.count else ps.count + 1 }
+    else
+      some { st := r, objs := (c.name, r.obj) :: ps.objs,
+             count := if r.obj.num 4 = 115 then ps.count else ps.count + 1 }
+
+/-- what follows the read of the base header `h` -/
+def afterHeader (cap : Nat) (ps : PState) (h : St) : Option PState :=
   if h.halt ≠ .none then none                                   -- Exception("End of File")
   else if !h.good then none                                     -- normal eof
+  else if h.obj.num 3 < 16 then none                            -- "Object size smaller than object header"
   else
-    let st1 := h.sback 16
-    let osz := h.obj.num 3
-    if osz < 16 then none                                       -- "Object size smaller than object header"
-    else
     match lookupClass (h.obj.num 4) with
-    | none =>
-      -- unknown type: seek forward by objectSize from the object start
-      some { ps with st := st1.sseek cfg osz }
-    | some c =>
-      let fresh := c.fresh
-      let csz := c.sizeExpr.eval fresh
-      let r := c.readProg.exec cfg { st1 with obj := fresh, halt := .none }
-      if r.halt = .badAlloc then none                           -- std::bad_alloc: worker ends, end of stream declared
-      else if r.halt = .oob then some { ps with st := r, outcome := some .oob }
-      else if r.halt = .exc then none
-      else if !r.good then none                                 -- "Read beyond end of file": object dropped
-      else
-        -- if (tmp != 0) seekg(tmp)   with tmp = objectSize - calculateObjectSize() < 0; never back to the object's start
-        if csz > osz then
-          if r.pos + osz ≤ st1.pos + csz then none              -- "Object size smaller than object": Exception
-          else
-            some { st := { r with pos := min (r.pos + osz - csz) r.inp.length }, objs := (c.name, r.obj) :: ps.objs,
-                   count := if r.obj.num 4 = 115 then ps.count else ps.count + 1 }
-        else
-          some { st := r, objs := (c.name, r.obj) :: ps.objs,
-                 count := if r.obj.num 4 = 115 then ps.count else ps.count + 1 }
+    | none => some { ps with st := (h.sback 16).sseek (memCfg cap) (h.obj.num 3) }   -- unknown type: skip objectSize bytes
+    | some c => classStep cap ps (h.sback 16) (h.obj.num 3) c
+
+/-- one call of `uncompressedFile2ReadWriteQueue` plus the loop test; `none` = the thread loop ends normally -/
+def objectStep (cap : Nat) (ps : PState) : Option PState :=
+  afterHeader cap ps (Gen.ObjectHeaderBase.readProg.exec (memCfg cap) { ps.st with obj := Gen.ObjectHeaderBase.fresh, halt := .none })
 
 def objectLoop (cap : Nat) : Nat → PState → PState
   | 0, ps => { ps with outcome := some .hang }                  -- no progress: unbounded object stream
